@@ -69,7 +69,7 @@ pub fn c06_mutations(_req: &J) -> J {
 pub fn c08(req: &J) -> J {
     let r = catch_unwind(AssertUnwindSafe(|| {
         let db = Database::new(InMemoryCas::default());
-        let st: UnsealedState<InMemoryCas> = genesis(NetID::Custom02, 1000, 5_000_000).realize(&db);
+        let st: UnsealedState<InMemoryCas> = genesis(NetID::Custom02, 1001, 5_000_001).realize(&db);
         let parent = st.seal(None);
         let mut next = parent.next_unsealed();
         let tip = if req["tips_nonzero"].as_bool().unwrap_or(false) { 777u128 } else { 0 };
@@ -83,8 +83,8 @@ pub fn c08(req: &J) -> J {
             data: Default::default(),
             sigs: vec![],
         };
-        let min = mk(0).base_fee(1000, 0, |c| melvm::covenant_weight_from_bytes(c)).0;
-        let min = mk(min + tip).base_fee(1000, 0, |c| melvm::covenant_weight_from_bytes(c)).0;
+        let min = mk(0).base_fee(1001, 0, |c| melvm::covenant_weight_from_bytes(c)).0;
+        let min = mk(min + tip).base_fee(1001, 0, |c| melvm::covenant_weight_from_bytes(c)).0;
         next.apply_tx(&mk(min + tip)).expect("tx");
         let action = if req["with_action"].as_bool().unwrap_or(false) {
             Some(ProposerAction { fee_multiplier_delta: 5, reward_dest: Address(HashVal([9u8; 32])) })
